@@ -219,7 +219,7 @@ class URL:
             path = (
                 (environ.get("SCRIPT_NAME", "") + environ.get("PATH_INFO", ""))
                 .encode("latin1")
-                .decode("utf8")
+                .decode("utf8", "replace")
             )
             query_string = environ.get("QUERY_STRING", "").encode("latin-1")
             host_header = environ.get("HTTP_HOST", None)
@@ -251,7 +251,10 @@ class URL:
                 url = f"{scheme}://{host}:{port}{path}"
 
         if query_string:
-            url = f"{url}?{query_string.decode()}"
+            try:
+                url = f"{url}?{query_string.decode()}"
+            except UnicodeDecodeError:
+                url = f"{url}?{query_string.decode('latin-1')}"
 
         return url
 
